@@ -29,7 +29,7 @@ RULE = ('case = batch of generated values, one real task per value (JSONData dic
         'equality (bool!=int, float bits, dtype, shape, order) + file hashes unchanged by load. non-trivial = value is not a flat '
         'scalar/empty container (depth>=2, or boundary number, or non-ASCII text, or >=2-d / non-default dtype array, or >=11 list items); '
         'distinct = typed canonical digest of (kind, value)')
-REQUIRED = ['values', 'failed_first_attempts', 'long_sequences', 'forced_type_morphs', 'loaded_arrays_mutated_in_place', 'json_values', 'numpy_values', 'pandas_values', 'generated_values', 'lazy_values', 'listnp_values', 'dir_values',
+REQUIRED = ['values', 'name_mode_cases', 'failed_first_attempts', 'long_sequences', 'forced_type_morphs', 'loaded_arrays_mutated_in_place', 'loaded_json_values_mutated_in_place', 'json_values', 'numpy_values', 'pandas_values', 'generated_values', 'lazy_values', 'listnp_values', 'dir_values',
             'fresh_chain_loads', 'fresh_process_loads', 'file_hash_checks', 'falsy_top_level', 'zero_d_arrays', 'lists_over_10_arrays']
 ASSUMPTIONS = ['domain per the property statement: NaN/inf in JSON, tuples, non-string keys, lone surrogates, integers outside 64 bit, '
                'object/structured arrays are outside it and not generated',
@@ -394,7 +394,7 @@ from tc_verif.props.c06 import observed_form
 import c06mod
 kinds = json.loads(sys.argv[4])
 from pathlib import Path
-chain = Config(Path(sys.argv[5]), name='c06', data={'tasks': ['c06mod.*']}).chain()
+chain = Config(Path(sys.argv[5]), name=sys.argv[6], data={'tasks': ['c06mod.*']}).chain(parameter_mode=(sys.argv[7] == '1'))
 out = {}
 for i, kind in enumerate(kinds):
     t = chain[f't{i}']
@@ -434,6 +434,25 @@ def run_case(case) -> CaseResult:
         from taskchain import Config
         import c06mod
         c06mod.VALUES = values
+        cfg_name, pmode = 'c06', True
+        if case.get('name_mode'):
+            # results addressed by the config name; the name has dots, and a sibling configuration `exp.v2` has stored OTHER values of the same tasks before
+            cfg_name, pmode = 'exp.v1', False
+            res.count('name_mode_cases')
+
+        def mkchain(name=None):
+            return Config(data_dir, name=name or cfg_name, data={'tasks': ['c06mod.*']}).chain(parameter_mode=pmode)
+        if case.get('name_mode'):
+            rng2 = random.Random(case['seed'] + 1)
+            c06mod.VALUES = [gen_value(rng2, k) for k in kinds]
+            sib = mkchain('exp.v2')
+            for i in range(len(kinds)):
+                try:
+                    sib[f't{i}'].value
+                except Exception:
+                    pass
+            c06mod.VALUES = values
+            c06mod.RUNS.clear()
         # a failed earlier attempt of some tasks: the result could not be stored completely; the retry returns the (smaller) final value
         first = {}
         for i, (k, v) in enumerate(zip(kinds, values)):
@@ -443,7 +462,7 @@ def run_case(case) -> CaseResult:
                     first[i] = pv
         if first:
             c06mod.FIRST = dict(first)
-            chain0 = Config(data_dir, name='c06', data={'tasks': ['c06mod.*']}).chain()
+            chain0 = mkchain()
             for i in first:
                 try:
                     chain0[f't{i}'].value
@@ -454,7 +473,7 @@ def run_case(case) -> CaseResult:
                     res.count('failed_first_attempts')
             c06mod.FIRST = {}
             c06mod.RUNS.clear()
-        chain1 = Config(data_dir, name='c06', data={'tasks': ['c06mod.*']}).chain()
+        chain1 = mkchain()
         canon_run = []
         ok_idx = []
         for i, (k, v) in enumerate(zip(kinds, values)):
@@ -508,8 +527,9 @@ def run_case(case) -> CaseResult:
                     ok_idx.remove(i)
         c06mod.VALUES = None                    # from here on any run is an error (the loader must load)
         before = tree_hash(data_dir)
-        chain2 = Config(data_dir, name='c06', data={'tasks': ['c06mod.*']}).chain()
+        chain2 = mkchain()
         nruns = len(c06mod.RUNS)
+        mutated_json = []
         for i in ok_idx:
             k, v = kinds[i], values[i]
             wit = {'kind': k, 'value': short(v, 600), 'index': i, 'seed': case['seed']}
@@ -537,6 +557,32 @@ def run_case(case) -> CaseResult:
                                 arr.flush()
                     except (ValueError, TypeError):
                         res.count('loaded_arrays_read_only')
+            elif k in ('json', 'generated') and isinstance(got2, (list, dict)):
+                # ... and on loaded lists / mappings
+                try:
+                    if isinstance(got2, list):
+                        got2.append('MUTATED')
+                        got2.reverse()
+                    else:
+                        got2['MUTATED'] = 1
+                    mutated_json.append(i)
+                    res.count('loaded_json_values_mutated_in_place')
+                except Exception:
+                    pass
+        # a third chain of the same process loads again: what consumers did to THEIR loaded values must not be visible
+        if mutated_json:
+            chain3 = mkchain()
+            for i in mutated_json:
+                k, v = kinds[i], values[i]
+                wit = {'kind': k, 'value': short(v, 600), 'index': i, 'seed': case['seed']}
+                try:
+                    got3 = observed_form(k, chain3[f't{i}'].value)
+                except Exception as e:
+                    res.violate(f'{k}: loading in a third chain raised {type(e).__name__}: {str(e)[:200]}', witness=wit)
+                    continue
+                if tcanon(got3) != canon_run[i]:
+                    res.violate(f'{k}: a later chain of the same process loaded {short(got3, 300)} after a consumer had modified ITS loaded copy in place; run returned '
+                                f'{short(v, 300)}', witness=wit)
         after = tree_hash(data_dir)
         res.count('file_hash_checks', len(before))
         if before != after:
@@ -545,7 +591,7 @@ def run_case(case) -> CaseResult:
         if case.get('fresh_process') and ok_idx and not res.violations:
             env = dict(os.environ)
             r = subprocess.run([sys.executable, '-c', LOADER, str(moddir), str(Path(__file__).resolve().parents[2]), str(REPO / 'src'),
-                                json.dumps(kinds), str(data_dir)], capture_output=True, text=True, timeout=300, env=env)
+                                json.dumps(kinds), str(data_dir), cfg_name, '1' if pmode else '0'], capture_output=True, text=True, timeout=300, env=env)
             line = [l for l in r.stdout.splitlines() if l.startswith('RESULT')]
             if not line:
                 res.inconclusive.append(f'fresh-process loader failed: {r.stderr[-400:]}')
@@ -580,4 +626,4 @@ def cases(tier, seed):
     n = 160 if tier == 'quick' else 6000
     for i in range(n):
         yield {'n': 30, 'seed': rng.randrange(1 << 30), 'kinds': ALL_KINDS, 'fresh_process': i % (5 if tier == 'quick' else 3) == 0,
-               'failed_first': 0.25 if i % 2 else 0.0, 'force_morph': 0.3 if i % 3 == 0 else 0.0}
+               'failed_first': 0.25 if i % 2 else 0.0, 'force_morph': 0.3 if i % 3 == 0 else 0.0, 'name_mode': i % 7 == 3}
